@@ -121,6 +121,7 @@ def plan_for(prop, tier, seed):
             ("oob-streams", True, "dev", lambda ids, rng: G.f_oob_streams(ids, rng, G.tiny_model_list(small, rng, 6 if q else 30), ifaces=("rec", "spi") if q else ("rec", "spi", "p8", "p16"))),
             ("oob-streams-nobatch", False, "dev", lambda ids, rng: G.f_oob_streams(ids, rng, G.tiny_model_list(small, rng, 3 if q else 20))),
             ("oob-rects", True, "dev", lambda ids, rng: G.f_oob_rects(ids, rng, G.tiny_model_list(small, rng, 4 if q else 30), ifaces=("rec", "spi"))),
+            ("oob-fault-retry", True, "dev", lambda ids, rng: G.f_fault_retry(ids, rng, 300 if q else 5000, flavour="oob")),
             ("oob-real", True, "dev", lambda ids, rng: G.f_oob_streams(ids, rng, G.real_model_list(rng, ["st7789", "gc9107"] if q else None, full=not q), n_per_cfg=4)
                                                        + G.f_oob_rects(ids, rng, G.real_model_list(rng, ["ili9341_666", "st7735s"] if q else None, full=not q), n_per_cfg=4)),
         ]
@@ -141,7 +142,8 @@ def plan_for(prop, tier, seed):
                   "stream whose length differs from the area")
         p.nontrivial = lambda sc: any(c["name"] == "fill_contiguous" for c in sc["calls"])
         p.families = [
-            ("contig-tiny", True, "dev", lambda ids, rng: G.f_contig_tiny(ids, rng, sample=0.15 if q else 1.0)),
+            ("contig-tiny", True, "dev", lambda ids, rng: G.f_contig_tiny(ids, rng, sample=0.15 if q else 1.0, ifaces=("rec", "spi", "spi"))),
+            ("contig-fault-retry", True, "dev", lambda ids, rng: G.f_fault_retry(ids, rng, 300 if q else 5000, flavour="contig")),
             ("contig-rects", True, "dev", lambda ids, rng: G.f_oob_rects(ids, rng, G.tiny_model_list([(2, 3), (4, 3), (7, 5)], rng, 4 if q else 40), ifaces=("rec", "spi", "p8"))),
             ("contig-real", True, "dev", lambda ids, rng: G.f_oob_rects(ids, rng, G.real_model_list(rng, ["st7789", "ili9486_666"] if q else None, full=not q), n_per_cfg=5, ifaces=("rec",))),
         ]
@@ -197,6 +199,7 @@ def plan_for(prop, tier, seed):
             ("spi-displays", True, "dev", lambda ids, rng: G.f_tiny_placement(ids, rng, ifaces=("spi",), sample=0.04 if q else 0.4)),
             ("spi-smallalpha", True, "dev", lambda ids, rng: G.f_small_alphabet(ids, rng, 400 if q else 6000, ifaces=("spi",))),
             ("spi-faults", True, "dev", lambda ids, rng: G.f_xport_faults(ids, rng, ifaces=("spi",), n=200 if q else 3000)),
+            ("spi-contig", True, "dev", lambda ids, rng: G.f_contig_tiny(ids, rng, sample=0.1 if q else 0.8, ifaces=("spi",))),
         ]
     elif prop == "C07":
         p.mc = [("MC_Parallel", "MC_Parallel", 8, 900, None), (MCP, "MC_Placement_seq_q" if q else "MC_Placement_seq_t", 12, 3000, None)]
